@@ -180,7 +180,9 @@ PENDING = "rule module not yet registered in this revision (planned: DESIGN.md s
 
 
 EXTRA = {'C10': " Since round 5 the check also evaluates the complete solver-core bundle (rules/core.py: all structural rules of C01 and C02 - encoding completeness, clause registration, conflict signals, learnt-clause bookkeeping, watch lists, restart levels, cancellation-carrying Results never swallowed), because this property's statement contains 'a solution valid per C01' / 'the same verdict' and its scenario (reused solver, asynchronous provider, soft requirement, many candidates) is exactly what exposes a slip there.", 'C13': " Since round 5 the check also evaluates the complete solver-core bundle (rules/core.py: all structural rules of C01 and C02 - encoding completeness, clause registration, conflict signals, learnt-clause bookkeeping, watch lists, restart levels, cancellation-carrying Results never swallowed), because this property's statement contains 'a solution valid per C01' / 'the same verdict' and its scenario (reused solver, asynchronous provider, soft requirement, many candidates) is exactly what exposes a slip there. Nothing but the owning fetch function writes a persistent cache table (census by receiver type).", 'C14': " Since round 5 the check also evaluates the complete solver-core bundle (rules/core.py: all structural rules of C01 and C02 - encoding completeness, clause registration, conflict signals, learnt-clause bookkeeping, watch lists, restart levels, cancellation-carrying Results never swallowed), because this property's statement contains 'a solution valid per C01' / 'the same verdict' and its scenario (reused solver, asynchronous provider, soft requirement, many candidates) is exactly what exposes a slip there.", 'C15': " Since round 5 the check also evaluates the complete solver-core bundle (rules/core.py: all structural rules of C01 and C02 - encoding completeness, clause registration, conflict signals, learnt-clause bookkeeping, watch lists, restart levels, cancellation-carrying Results never swallowed), because this property's statement contains 'a solution valid per C01' / 'the same verdict' and its scenario (reused solver, asynchronous provider, soft requirement, many candidates) is exactly what exposes a slip there.", 'C05': ' Since round 5 the check also evaluates the verdict half of the solver-core bundle (rules/core.py: conflict signals, decision errors, learnt-clause bookkeeping, unit propagation, watch lists, restart levels, negative assertions, candidate lists of the cache): a restriction the solver adds although it does not follow from the problem changes which candidates are kept. An interrupted soft run is never presented as a solution.', 'C07': ' Since round 5 the check also evaluates the verdict half of the solver-core bundle (rules/core.py: conflict signals, decision errors, learnt-clause bookkeeping, unit propagation, watch lists, restart levels, negative assertions, candidate lists of the cache): a restriction the solver adds although it does not follow from the problem changes which candidates are kept. The sequence type unions are stored in appends at the end and exposes every element.', 'C08': ' Since round 5 the check also evaluates the verdict half of the solver-core bundle (rules/core.py: conflict signals, decision errors, learnt-clause bookkeeping, unit propagation, watch lists, restart levels, negative assertions, candidate lists of the cache): a restriction the solver adds although it does not follow from the problem changes which candidates are kept.', 'C17': ' Since round 5 also the shared-buffer protocol of resolvo::Vector / String in the C++ headers (clang AST) and of the Rust Vector (MIR): counted sharing behind refcount > 0, free only where the decrement produced zero with destructors first, move assignment exchanges handles, detach keeps a buffer only if unique and large enough and otherwise copies elements 0..size, clear edits in place only if unique, String handles come from and go back to the library, and on the Rust side only Clone / Drop / the two unique-buffer paths change a reference count.', 'C16': " Since round 5 also: the derived serde impls write every variant under its tag (or untagged variants have different serialised shapes) and every field under its name; stored values are not edited in place between the provider's answer and the table.", 'C12': ' Since round 5 also: a propagation round (walk over the unpropagated trail) exists only inside propagate behind the poll; a hand-written match with an arm for Err(Cancelled(..)) takes the payload out in that arm.', 'C09': " Since round 5 also: who may enter the cache's fetching entry points (encoder futures, the cache itself, snapshot capture, Conflict::graph) and who may write its tables (by receiver type).", 'C20': ' Since round 5 also: every insert into a memo table is dominated by the provider call whose answer it stores; the provider is not polled on a cache hit; tables are written only by their fetch function.', 'C18': ' Since round 5 also: the non-deduplicating intern functions allocate on every path; a union resolves to the members it was interned with (unconditional append, SmallVec append/exposure).'}
-EXTRA_TECH = {k: '; solver-core rule bundle shared with C01/C02 (rules/core.py)' for k in ('C05','C07','C08','C10','C13','C14','C15')}
+EXTRA['C03'] = " Since round 6 the check also evaluates the complete solver-core bundle (rules/core.py): a report is a proof only if every clause in it follows from the problem; and what Conflict::graph reads from the cache can neither fail nor be replaced by a default."
+EXTRA['C04'] = " Since round 6 also: a recursion census (a function on the solve / rendering path that calls itself must be reviewed) and the verdict half of the solver-core bundle (the trail discipline behind the internal expect/assert sites)."
+EXTRA_TECH = {k: '; solver-core rule bundle shared with C01/C02 (rules/core.py)' for k in ('C03','C04','C05','C07','C08','C10','C13','C14','C15')}
 EXTRA_TECH['C17'] = '; clang-AST path facts (conditions known on the way to a call) for the reference-counting protocol of the C++ containers'
 
 
